@@ -17,7 +17,7 @@
      Shape / hash           : C10, C15
      Substitution           : C13
      Include                : C14
-     Cli / Par automaton    : C16, C17, C19
+     Cli / Par automaton    : C16, C17, C19   (+ the driver model: the C16_driver, C17_driver, C19_driver theorems)
      Partition              : C18
      Framing                : C20   (last: Framing.v defines a constructor named In)
 
@@ -995,6 +995,81 @@ Proof.
   split; [right; reflexivity | left].
   exists (RErr true). split; [right; right; left; reflexivity | exists true; reflexivity].
 Qed.
+
+(* ================================================= the driver model (C16, C17, C19) *)
+From SLT Require Import Driver DriverInv DriverSim DriverProofs DriverLive.
+
+(* three files, two jobs, fail-fast: the second file fails on its first statement, which cancels the
+   first (in flight, two sessions) and skips the third; a fair schedule of 40 rounds *)
+Definition drv_f1 := mkF c17_db1 [AConnect 0; ASql 0 true; AConnect 1; ASql 1 true; ASql 0 true] false.
+Definition drv_f2 := mkF c17_db2 [AConnect 0; ASql 0 false; ASql 0 true] false.
+Definition drv_f3 := mkF c17_dbk [AConnect 0; ASql 0 true] false.
+Definition drv_cf := mkCfg 2 true true [drv_f1; drv_f2; drv_f3].
+
+(* an explicit schedule, one choice per step *)
+Definition drv_sched : list choice :=
+  [CDriver; CDriver; CDriver; CDriver;          (* three CREATE DATABASE, then the stream phase *)
+   CDriver; CDriver;                            (* two files pulled (two jobs) *)
+   CTask 0 0; CTask 1 0;                        (* both look at the token and start *)
+   CTask 0 0; CTask 1 0; CTask 0 0;             (* connect, connect, sql *)
+   CTask 1 0;                                   (* the failing statement of the second file *)
+   CTask 0 0;                                   (* the first file opens its second session *)
+   CTask 1 0; CTask 1 0; CReport 1;             (* close, done, reported: fail-fast sets the token *)
+   CDriver; CTask 2 0; CTask 2 0; CReport 2;    (* the third file is pulled, waits for the lock ... *)
+   CTask 0 0; CTask 0 1; CTask 0 0; CTask 0 0;  (* the first file is cancelled and closes both sessions (second one first) *)
+   CTask 2 0; CReport 2; CReport 0;             (* ... and is skipped only now *)
+   CDriver; CDriver; CDriver; CDriver; CDriver; CDriver ].
+
+Definition drv_final := fst (drun drv_cf (dst0 drv_cf) drv_sched).
+Definition drv_trace := snd (drun drv_cf (dst0 drv_cf) drv_sched).
+
+Example nv_driver_run :
+  drv_trace =
+    [PCreate c17_db1; PCreate c17_db2; PCreate c17_dbk;
+     PConnect c17_db1 0; PConnect c17_db2 1; PSql c17_db1 0; PSql c17_db2 1; PConnect c17_db1 2;
+     PClose c17_db2 1; PCancel; PClose c17_db1 0; PClose c17_db1 2;
+     PDrop c17_db1; PDrop c17_dbk; PMgmtClose] /\
+  d_phase drv_final = DEnd /\
+  d_reported drv_final = [(c17_db2, RErr false); (c17_dbk, RSkipped); (c17_db1, RCancelled)] /\
+  exit_of drv_final = 1%N /\ kept_of drv_cf drv_final = [c17_db2].
+Proof. vm_compute. repeat split; reflexivity. Qed.
+
+Example nv_C17_driver_refines_observer :
+  wf_cfg drv_cf /\ drun drv_cf (dst0 drv_cf) drv_sched = (drv_final, drv_trace).
+Proof.
+  split; [|vm_compute; reflexivity]. unfold wf_cfg. vm_compute.
+  repeat (constructor; [cbn; intros H; repeat (destruct H as [H|H]; [discriminate H|]); exact H|]); constructor.
+Qed.
+
+Example nv_C17_driver_end_closed :
+  wf_cfg drv_cf /\ drun drv_cf (dst0 drv_cf) drv_sched = (drv_final, drv_trace) /\ d_phase drv_final = DEnd.
+Proof.
+  split; [exact (proj1 nv_C17_driver_refines_observer)|]. split; vm_compute; reflexivity.
+Qed.
+
+Example nv_C16_driver_results_consistent : drun drv_cf (dst0 drv_cf) drv_sched = (drv_final, drv_trace).
+Proof. vm_compute; reflexivity. Qed.
+Example nv_C16_driver_exit : drun drv_cf (dst0 drv_cf) drv_sched = (drv_final, drv_trace).
+Proof. vm_compute; reflexivity. Qed.
+Example nv_C16_driver_reports_each_file_once :
+  drun drv_cf (dst0 drv_cf) drv_sched = (drv_final, drv_trace) /\
+  match d_phase drv_final with DDrop _ | DClose | DEnd => True | _ => False end.
+Proof. split; [vm_compute; reflexivity|vm_compute; exact I]. Qed.
+
+(* a state in the middle of the run (after the failure has been reported, the first file still in flight) *)
+Definition drv_mid := fst (drun drv_cf (dst0 drv_cf) (firstn 20 drv_sched)).
+Example nv_C19_driver_progress :
+  (0 < c_jobs drv_cf)%nat /\ DInv drv_cf drv_mid /\ d_phase drv_mid <> DEnd /\ d_token drv_mid = true.
+Proof.
+  split; [cbn; lia|]. split.
+  - unfold drv_mid. destruct (drun drv_cf (dst0 drv_cf) (firstn 20 drv_sched)) as [st tr] eqn:E. cbn [fst].
+    eapply DInv_reach; [apply DInv_init|eapply DriverTrans.drun_reach; exact E].
+  - split; vm_compute; [discriminate|reflexivity].
+Qed.
+Example nv_C19_driver_never_doomed :
+  (0 < c_jobs drv_cf)%nat /\
+  drun drv_cf (dst0 drv_cf) (firstn 20 drv_sched) = (drv_mid, snd (drun drv_cf (dst0 drv_cf) (firstn 20 drv_sched))).
+Proof. split; [cbn; lia|]. unfold drv_mid. destruct (drun drv_cf (dst0 drv_cf) (firstn 20 drv_sched)); reflexivity. Qed.
 
 (* ###################################################################### *)
 From SLT Require Import Partition PartitionProofs.
